@@ -27,6 +27,14 @@ def render_items(items):
     return ", ".join(parts)
 
 
+def quoted_token(text):
+    """The text as a quoted string token; a value holding a double quote is written in single quotes."""
+    if '"' in text:
+        assert "'" not in text, "values holding both kinds of quotes are not generated"
+        return "'%s'" % text
+    return '"%s"' % text
+
+
 def render_rule(field_type, rule):
     if rule is None:
         return ""
@@ -34,11 +42,11 @@ def render_rule(field_type, rule):
         return render_items(rule["items"])
     if field_type == "Choice":
         if rule.get("quoted", True):
-            return ", ".join('"%s"' % c for c in rule["choices"])
+            return ", ".join(quoted_token(c) for c in rule["choices"])
         return ", ".join(rule["choices"])
     if field_type == "Constant":
         token = rule["token"]
-        return '"%s"' % token if rule.get("style", "str") == "str" else token
+        return quoted_token(token) if rule.get("style", "str") == "str" else token
     if field_type == "DateTime":
         return render_layout(rule["parts"], rule["seps"])
     if field_type == "Pattern":
